@@ -25,6 +25,12 @@ class MErr(Exception):
         self.kind = kind
 
 
+def runaway(out):
+    """The model gave up because the program does not end within its caps (runaway recursion, doubling data): such a
+    program is a time / memory bomb for the real system too and is not made part of a history."""
+    return out[0] == 'unspec' and any(k in str(out[1]) for k in ('step cap', 'size cap', 'deep recursion', 'model recursion', 'recursion inside'))
+
+
 class Unspec(Exception):
     pass
 
@@ -301,6 +307,8 @@ class Model:
         if op == '+':
             if isinstance(l, str) and not isinstance(r, str):
                 r = self.to_str(r)
+            if isinstance(l, (str, list)) and isinstance(r, (str, list)) and len(l) + len(r) > 200000:
+                raise Unspec('model size cap')       # a doubling chain: the model does not follow programs that big
             return self.py(lambda: l + r)
         if op == '-':
             return self.py(lambda: l - r)
@@ -640,6 +648,9 @@ class Model:
     def b_filter(self, c, f):
         if not isinstance(c, list):
             raise MErr('other', 'filter on non-list')
+        if f is None:
+            # not a function at all: the reference semantics say nothing (Python's filter would keep the truthy elements)
+            raise Unspec('filter with None as function')
         out = []
         for v in c:
             if self.truth(self.call_value(f, [v])):
